@@ -92,6 +92,17 @@ theorem ls_success_wolfe_fun (c : Consts K) (p : Params K) (t : List (Ev K)) (α
   rw [← h0, ← h0', ← e1, ← e2]
   exact ⟨hneg, h1, h2⟩
 
+/-- link to the acceptance loop: a successful search with `c₁ > 0` and a positive step returns a *strictly lower* value,
+    so `DescentMinimizer.__call__`'s "energy has increased" / "energy has not changed" exits cannot be taken after a
+    successful line search whose recorded values are the energy's -/
+theorem ls_success_strict_decrease (c : Consts K) (p : Params K) (t : List (Ev K)) (α : K)
+    (hc1 : 0 < p.c1) (hα : 0 < α) (h : acceptsLS c p t true α = true) :
+    ∃ ev ∈ t, ev.α = α ∧ ∃ f, ev.φ = .num f ∧ f < p.phi0 := by
+  obtain ⟨hneg, ev, he, hev, f, d, hf, _, h1, _⟩ := ls_success_wolfe c p t α h
+  refine ⟨ev, he, hev, f, hf, ?_⟩
+  have : p.c1 * α * p.dphi0 < 0 := mul_neg_of_pos_of_neg (mul_pos hc1 hα) hneg
+  linarith
+
 /-- whatever the verdict, the returned energy is the start (`α = 0`) or one that was actually evaluated
     (constructed without `FloatingPointError`) during this search -/
 theorem ls_returns_evaluated_point (c : Consts K) (p : Params K) (t : List (Ev K)) (s : Bool) (α : K)
